@@ -149,6 +149,15 @@ fn key_alphabet() -> Vec<K> {
         K::Str("true".into()),
         K::Str("é".into()),
         K::Str(vals::LONG_ASCII.into()),
+        // names that are prefixes / suffixes of one another, that contain a dot or a blank, that
+        // differ in case or in normalisation only, and the longest inline string (21 bytes)
+        K::Str("ab".into()),
+        K::Str("a.b".into()),
+        K::Str("a b".into()),
+        K::Str("A".into()),
+        K::Str("k00".into()),
+        K::Str("e\u{301}".into()),
+        K::Str("abcdefghijklmnopqrstu".into()),
         K::Bool(true),
         K::Bool(false),
     ];
